@@ -105,7 +105,11 @@ impl Evaluator {
   }
 
   pub fn gen<R: rand::Rng>(&self, rng: &mut R) -> Share {
-    let rand = Fp::random(rng);
+    // x = 0 would hand out the secret itself
+    let mut rand = Fp::random(&mut *rng);
+    while rand.is_zero_vartime() {
+      rand = Fp::random(&mut *rng);
+    }
     self.evaluate(rand)
   }
 }
